@@ -20,11 +20,11 @@ func init() {
 type edgeClass int
 
 const (
-	eDesc edgeClass = iota // strictly descends containment
-	eAsc                   // strictly ascends parent links
-	eSame                  // carriers passed unchanged (non-increasing)
-	eRef                   // carrier derived through a reference / lookup
-	eFresh                 // carrier freshly allocated here
+	eDesc  edgeClass = iota // strictly descends containment
+	eAsc                    // strictly ascends parent links
+	eSame                   // carriers passed unchanged (non-increasing)
+	eRef                    // carrier derived through a reference / lookup
+	eFresh                  // carrier freshly allocated here
 	eUnknown
 )
 
@@ -45,7 +45,7 @@ type recEdge struct {
 // REC exceptions: one named construct, one reason.
 var recJustified = map[string]string{
 	"yang.findInDir → yang.findInDir": "the only carrier is a directory path extended by one component of an ioutil.ReadDir listing; ReadDir reports symlinks as non-directories, so the walk is over a finite directory tree",
-	"yang.build → meta-slot closure": "funcs[\"Name\"|\"Statement\"|\"Parent\"] select the closures made for string / *Statement / interface kinded fields (SCHEMA.META fixes those kinds); those closures contain no call of build (checked below), so the VTA edge to the substatement builders is spurious for these three call sites",
+	"yang.build → meta-slot closure":  "funcs[\"Name\"|\"Statement\"|\"Parent\"] select the closures made for string / *Statement / interface kinded fields (SCHEMA.META fixes those kinds); those closures contain no call of build (checked below), so the VTA edge to the substatement builders is spurious for these three call sites",
 }
 
 func ruleRec(c *Ctx) []Obligation {
@@ -554,7 +554,7 @@ func (c *Ctx) consumesInputBefore(e *recEdge) string {
 
 func (c *Ctx) recJustification(e *recEdge) (string, bool) {
 	key := c.FnName(e.caller) + " → " + c.FnName(e.callee)
-	if j, ok := recJustified[key]; ok {
+	if j, ok := jget("recJustified", recJustified, key); ok {
 		return j, true
 	}
 	// build → closure through a constant meta-slot key
@@ -563,7 +563,7 @@ func (c *Ctx) recJustification(e *recEdge) (string, bool) {
 			if l, okl := call.Call.Value.(*ssa.Lookup); okl {
 				if s, isc := constString(l.Index); isc && (s == "Name" || s == "Statement" || s == "Parent") {
 					// check: the closures that do SetString / Set(ValueOf(stmt)) / Set(p) contain no call to build — done by SCHEMA.CARD's classification
-					return recJustified["yang.build → meta-slot closure"], true
+					return jstr("recJustified", recJustified, "yang.build → meta-slot closure"), true
 				}
 			}
 		}
